@@ -638,6 +638,9 @@ class MQTTBaseProtocol(Protocol):
             else:
                 msg = "Connection Refused, reserved return code"
             request.deferred.errback(MQTTStateError(response.resultCode, msg))
+            # the broker closes a refused connection; do not leave it open
+            # for a second CONNECT or for timers armed while connecting
+            self.transport.abortConnection()
         self.connReq = None     # to be garbage-collected
       
     # ------------------------------------------------------------------------
